@@ -10,7 +10,7 @@ Extraction "ykmodel.ml"
   get_cnk get_index_of_rank get_lowest_key_pos insert_rank delete_rank get_empty_slot
   split_dest set_cnk perm_list perm_validb insert_rank_shifts delete_rank_shifts
   decode_version set_locked set_inserting_deleting set_splitting set_deleted set_root set_border
-  inc_vinsert_delete inc_vsplit unlock try_lock is_stable version_init
+  inc_vinsert_delete inc_vsplit unlock try_lock is_stable version_init ver_write_ok get_locked
   kt_lt kt_gt kt_le kt_ge kt_eq lookup_probe rank_probe route_probe iins_probe bsplit_left
   delete_match canon_lt kt_wf tuple_of_key lex_lt
   create_value_block vb_body_offset vb_get_len vb_gc_size vb_gc_align
